@@ -13,12 +13,14 @@ func RepoSquash(stores context2.Stores, repoName string, opts ...Option) error {
 		return fmt.Errorf("cannot find repo: %s: %v", repoName, err)
 	}
 
-	opts = append(opts, WithMinimalBundle(true)) // limits I/Os with remote store: we only need keys
-
+	// Only committed bundles (those with a descriptor) count as the N latest: a listing by keys only would
+	// also return the leftovers of interrupted uploads (index files without a descriptor).
 	bundles, err := ListBundles(repoName, stores, opts...)
 	if err != nil {
 		return err
 	}
+
+	opts = append(opts, WithMinimalBundle(true)) // limits I/Os with remote store: from now on, we only need keys
 
 	settings := defaultSettings()
 	for _, bApply := range opts {
